@@ -42,6 +42,7 @@ type c19In struct {
 	Views      map[string]c19Layer `json:"views"`
 	Reqs       []c19Req            `json:"reqs"`
 	Concurrent int                 `json:"concurrent"` // 0: sequential shape; n: n tasks, each runs Reqs rotated by its index
+	Ext        string              `json:"ext,omitempty"` // file extension the provider is configured with ("" = the package default)
 }
 
 var c19Names = []string{"A", "B", "C", "D", "E"}
@@ -80,6 +81,9 @@ func c19Gen(r *Rand, tier string) interface{} {
 	}
 	if r.Chance(1, 2) {
 		in.Concurrent = 2 + r.Intn(4)
+	}
+	if r.Chance(1, 5) {
+		in.Ext = []string{".tpl.html", ".t", ".tmpl.txt"}[r.Intn(3)] // the extension is a constructor argument
 	}
 	return in
 }
@@ -153,6 +157,9 @@ func (p tProv) get(rq c19Req) (tmplSet, error) {
 }
 
 func (in *c19In) ext() string {
+	if in.Ext != "" {
+		return in.Ext
+	}
 	if in.HTML {
 		return goathtml.FileExtension
 	}
@@ -229,9 +236,9 @@ func sortedNamesL(m map[string]c19Layer) []string {
 
 func (in *c19In) provider(fs filesystem.Filespace, cached bool) c19Provider {
 	if in.HTML {
-		return hProv{ghprovider.NewProvider(fs, goathtml.HelpersPath, goathtml.LayoutPath, goathtml.ViewPath, goathtml.FileExtension, nil, cached)}
+		return hProv{ghprovider.NewProvider(fs, goathtml.HelpersPath, goathtml.LayoutPath, goathtml.ViewPath, in.ext(), nil, cached)}
 	}
-	return tProv{gtprovider.NewProvider(fs, goattext.HelpersPath, goattext.LayoutPath, goattext.ViewPath, goattext.FileExtension, nil, cached)}
+	return tProv{gtprovider.NewProvider(fs, goattext.HelpersPath, goattext.LayoutPath, goattext.ViewPath, in.ext(), nil, cached)}
 }
 
 // expected visible definitions of a request: the more specific layer overrides
@@ -374,7 +381,7 @@ func c19Shrink(inI interface{}) []interface{} {
 	in := inI.(*c19In)
 	var out []interface{}
 	cp := func() *c19In {
-		c := &c19In{HTML: in.HTML, Concurrent: in.Concurrent, Helpers: c19Layer{}, Layouts: map[string]c19Layer{}, Views: map[string]c19Layer{}, Reqs: append([]c19Req(nil), in.Reqs...)}
+		c := &c19In{HTML: in.HTML, Concurrent: in.Concurrent, Ext: in.Ext, Helpers: c19Layer{}, Layouts: map[string]c19Layer{}, Views: map[string]c19Layer{}, Reqs: append([]c19Req(nil), in.Reqs...)}
 		for k, v := range in.Helpers {
 			c.Helpers[k] = v
 		}
